@@ -123,7 +123,8 @@ def _generate_text(csl, constants):
 
 THEOREMS = [
     'NSV.C15.degree_tables_agree', 'NSV.C15.mods_rebuild', 'NSV.C15.candidate_denotes',
-    'NSV.C15.name_denotes', 'NSV.C15.name_or_error', 'NSV.C15.name_error_iff', 'NSV.C15.parse_consistent',
+    'NSV.C15.bass_is_lowest', 'NSV.C15.name_denotes', 'NSV.C15.name_or_error', 'NSV.C15.name_error_iff',
+    'NSV.C15.parse_consistent',
 ]
 
 
@@ -356,7 +357,7 @@ def oracle_pitches(csl, pitches, result=None):
 def run(chk):
     from note_seq import chord_symbols_lib as csl
     ok_gen = generate(chk)
-    chk.prove(MODULES, [(MODULES[0], t) for t in THEOREMS], [EXE], extra_trusted=[
+    chk.prove(MODULES, THEOREMS, [EXE], extra_trusted=[
         'harness/c15.py generate(): table extraction (degree names carried as (number, alteration); '
         'printing back to the name is checked for every name)',
         'string layer modelled, not verified: the regular expressions that split a figure (every '
